@@ -253,8 +253,14 @@ def main(argv=None):
                     size=len(case_txt), count=1)
         wall = time.time() - t0
         if harness_errors:
+            seen_err = set()
             for e in harness_errors:
-                print("HARNESS-ERROR property=%s %s" % (prop, e))
+                key = e.split(":", 1)[-1][:400]
+                if key in seen_err:
+                    continue
+                seen_err.add(key)
+                print("HARNESS-ERROR property=%s %s" % (prop, e[:3000]))
+            print("HARNESS-ERROR property=%s %d shard(s) failed" % (prop, len(harness_errors)))
             return 2
         nviol, known_hit = report_failures(prop, seed, failures)
         # ---- floors ---------------------------------------------------------------
